@@ -472,6 +472,54 @@ func ruleLoadTimestampMax(c *Ctx) {
 	c.saw(fnName(load))
 	found, _ := guardControlsReturn(load, relMatcher(">", resultOfCall(subReal), isConstInt(0)), func(*ssa.Return) bool { return true })
 	c.Check(found, rule, "SubRealTimeByWallClock(window, max) > 0 in "+fnName(load), "the running maximum is replaced only by a strictly later window", P.pos(load.Pos()), "comparison not found")
+	// on the edge the comparison names: the running maximum (a φ round the loop over the stored windows) takes a parsed
+	// window only where SubRealTimeByWallClock(that window, running maximum) > 0 was found
+	parse := F(P.Func("pkg/typeutil", "ParseTimestamp"))
+	nMax := 0
+	for _, b := range load.Blocks {
+		for _, ins := range b.Instrs {
+			phi, ok := ins.(*ssa.Phi)
+			if !ok {
+				break
+			}
+			for i, e := range phi.Edges {
+				if i >= len(b.Preds) || !derivesFrom(e, resultOfCall(parse), 2) {
+					continue
+				}
+				if _, isPhi := e.(*ssa.Phi); isPhi {
+					continue
+				}
+				nMax++
+				win := e
+				later := &guardEv{name: "SubRealTimeByWallClock(window, running maximum) > 0", match: func(cond ssa.Value, pos bool) bool {
+					r, ok := relOf(cond, pos)
+					if !ok {
+						return false
+					}
+					cl, _ := callOf(r.X)
+					k, isC := constInt(r.Y)
+					if cl == nil || !isC || !subReal.Match(cl.Common()) || len(cl.Call.Args) != 2 {
+						return false
+					}
+					fwd := sameVal(cl.Call.Args[0], win)
+					rev := sameVal(cl.Call.Args[1], win)
+					switch {
+					case fwd:
+						return (r.Op == token.GTR && k >= 0) || (r.Op == token.GEQ && k >= 1)
+					case rev:
+						return (r.Op == token.LSS && k <= 0) || (r.Op == token.LEQ && k <= -1)
+					}
+					return false
+				}}
+				last := b.Preds[i].Instrs[len(b.Preds[i].Instrs)-1]
+				c.need(rule, load, fmt.Sprintf("running maximum replaced #%d", nMax), func(x ssa.Instruction) bool { return x == last }, []Ev{later}, all,
+					"the largest stored window is kept: a window replaces the running maximum only if it is later")
+			}
+		}
+	}
+	if nMax == 0 {
+		c.Undec(rule, "running maximum in "+fnName(load), "a local that takes the parsed windows", P.pos(load.Pos()), "")
+	}
 	// prefix scan: EtcdKVGet is called with WithPrefix
 	get := F(P.Func("pkg/etcdutil", "EtcdKVGet"))
 	okPrefix := false
